@@ -202,6 +202,10 @@ def run(tier, seed, ck=None):
             list(ex.map(one_path, r.paths))
     if any(not o['ok'] for o in ck.obls) and not ck.violations:
         battery(ck)
+    if own:
+        # the verdicts above are about single calls from the initial package state: histories (observe, scribble on returned slices, mutate, observe) must not change them
+        from props import hidden
+        hidden.embed(ck, tier, ('scalar',), 'C06', 'scalar arithmetic')
     return ck.finish() if own else None
 
 
